@@ -239,6 +239,7 @@ KERNEL_KINDS = {
 
 
 def kernel_level(S, rep, tier):
+    labels = []
     for e in CATALOGUE:
         gen = e.gen[:-3]
         kinds = KERNEL_KINDS.get(gen)
@@ -250,10 +251,21 @@ def kernel_level(S, rep, tier):
             continue
         if gen == "gen_advection_timestep_euler_forward_conservative_eno3_pyst_kernel" and e.opts.get("field_type") == "vector":
             continue    # per-component scalar transport of a component array: covered by the scalar variant and the step
+        labels.append(e.label())
+    from .simtools import parallel_over
+    parallel_over(S, rep, "sa.props.c14", "kernel_entry", labels)
+
+
+def kernel_entry(S, label, rep):
+    from .common import entry_by_label
+    if True:
+        e = entry_by_label(label)
+        gen = e.gen[:-3]
+        kinds = KERNEL_KINDS.get(gen)
         sm, raised, _, _ = entry_summary(S, e)
         if sm is None or sm.raised is not None or sm.problems:
             rep.ob("C14.kernel", e.label(), False, "kernel cannot be analysed", key="C14.kernel|%s|raises" % e.label())
-            continue
+            return
         dim = e.dim
         kk = {k: ("pseudoscalar" if dim == 2 else "pseudovector") if v == "pseudo" else v for k, v in kinds.items()}
         written = [n for n in sm.final if n in sm.written]
